@@ -90,7 +90,7 @@ func (ex *Exec) evalFrom(it FromItem, left jrow, outer *Env) (rows []jrow, shape
 				return rr, jrow{&binding{alias: alias, cols: r.Cols}}
 			}
 		}
-		t := ex.db.table(f.Schema, f.Name)
+		t := ex.db.table(ex.sch(f.Schema), f.Name)
 		return ex.scanTable(t, alias), jrow{&binding{alias: alias, cols: t.colNames}}
 	case *aliasedSub:
 		rows, shape := ex.evalFrom(f.SubRef, left, outer)
